@@ -2,7 +2,7 @@
 CONSTANTS
   Val = {"v1", "v2", "v3", "v4", "v5"}
   Stranger = {"x1"}
-  MaxReq = 8
+  MaxReq = 10
   Units = 2
   ExpSet = {2}
   PenaltySet = {2}
